@@ -22,6 +22,12 @@ func execNumber(context *exprContext, expr *grammar.Grammar) error {
 	numStr := expr.GetString()
 	numResult, err := strconv.ParseFloat(numStr, 64)
 
+	// A literal beyond the range of a double is the nearest IEEE 754 value,
+	// an infinity, which is what ParseFloat returns next to its range error.
+	if numErr, ok := err.(*strconv.NumError); ok && numErr.Err == strconv.ErrRange {
+		err = nil
+	}
+
 	context.result = Number(numResult)
 	return err
 }
